@@ -23,6 +23,8 @@ RULE = (
     "between / at the floor and ceiling midpoint of / outside the publications on a bare Output>>Input link; payloads "
     "scalar/list/ndarray/masked/Quantity x flat/shaped/time axis/stacked/malformed x NoGrid and UniformGrid infos x unit "
     "pairs (same, equivalent, convertible incl. offset and non-dyadic factors, incompatible) x masks FLEX/NONE/explicit; "
+    "links between two layouts of the same UniformGrid (axes_reversed / axes_increase / order differ, 1-3 D, non-square), "
+    "links under a memory limit (0 and small: publications spilled to disk and read back) with masked payloads of varying masks; "
     "a separate stream for the memory-sharing rule (views, strided views, copies, same object, converted); a stream with 2-3 "
     "consumers on one output (direct / behind Scale(1.0)), per-consumer forward requests that are mutually out of step plus backwards requests. "
     "non-trivial = a served request strictly between two publications, or a delivered non-scalar payload; "
@@ -110,13 +112,37 @@ def make_grid(g):
             return fm.NoGrid(len(g["dsh"]))
         return fm.NoGrid(data_shape=tuple(g["dsh"]))
     return fm.UniformGrid(tuple(g["dims"]), order=g["order"], axes_reversed=g["rev"],
+                          axes_increase=g.get("inc") or [True] * len(g["dims"]),
                           data_location=fm.Location.CELLS if g["loc"] == "cells" else fm.Location.POINTS)
+
+
+def cons_grid_desc(case, c):
+    """generator-level grid of a consumer: the producer's grid, or the same grid in the consumer's own layout"""
+    if not c.get("lay"):
+        return case["grid"]
+    return dict(case["grid"], rev=c["lay"]["rev"], inc=c["lay"]["inc"], order=c["lay"].get("order", case["grid"]["order"]))
+
+
+def layout_positions(dims_xyz, rev, inc):
+    """for each C position of the data array of a layout: the id (C position in the canonical xyz, increasing array) of the
+    cell stored there.  Hand computation with plain index arithmetic (no finam helper)."""
+    import itertools
+    shape = list(dims_xyz)[::-1] if rev else list(dims_xyz)
+    ids = []
+    for idx in itertools.product(*[range(n) for n in shape]):
+        xyz = list(idx)[::-1] if rev else list(idx)
+        can = [i if inc[a] else dims_xyz[a] - 1 - i for a, i in enumerate(xyz)]
+        cid = 0
+        for a, i in enumerate(can):
+            cid = cid * dims_xyz[a] + i
+        ids.append(cid)
+    return ids
 
 
 # ----------------------------------------------------------------------------
 # generator
 # ----------------------------------------------------------------------------
-def _gen_payload(rng, g, uo, maskspec, serial, exact, malformed):
+def _gen_payload(rng, g, uo, maskspec, serial, exact, malformed, wraps=None):
     ds = [x if x != -1 else rng.choice([1, 2, 3]) for x in grid_shape(g)]
     n = _prod(ds)
     forms = ["shaped", "shaped", "timed"]
@@ -151,7 +177,7 @@ def _gen_payload(rng, g, uo, maskspec, serial, exact, malformed):
         shape = []
     size = _prod(shape)
     vals = [serial * 32 + j for j in range(size)]  # in eighths: publications are told apart by value
-    wrap = rng.choice(["array", "array", "array", "list", "masked", "qty", "qty", "qty_masked"])
+    wrap = rng.choice(wraps or ["array", "array", "array", "list", "masked", "qty", "qty", "qty_masked"])
     if shape == [] and rng.random() < 0.6:
         wrap = "scalar"
     mask = None
@@ -234,7 +260,10 @@ def _gen_case(rng, malformed, exact=False):
                 lo = r if (lo is None or malformed) else max(lo, r)
         if len(ops) > 14:
             break
-    return {"grid": g, "uo": uo, "ui": ui, "mask": maskspec, "in_mask": rng.choice(["flex", "same"]), "ops": ops}
+    case = {"grid": g, "uo": uo, "ui": ui, "mask": maskspec, "in_mask": rng.choice(["flex", "same"]), "ops": ops}
+    if rng.random() < 0.15:
+        case["mem_limit"] = rng.choice([0, 0, 8, 64, 200])  # publications spilled to disk (np.save / pickle) and read back
+    return case
 
 
 def _gen_share_case(rng):
@@ -281,7 +310,11 @@ def _gen_share_case(rng):
     return {"grid": g, "uo": uo, "ui": ui, "mask": "flex", "in_mask": "flex", "ops": ops}
 
 
-def _gen_multi_case(rng):
+LAYOUT_DIMS = [[3, 4], [4, 3], [2, 4], [3, 2, 4], [2, 3, 3], [3, 4, 2], [4, 2, 3], [4], [3, 3]]
+MASKED_WRAPS = ["masked", "masked", "qty_masked", "qty_masked", "array", "qty"]
+
+
+def _gen_multi_case(rng, flavour=None):
     """one output, 2-3 consumers (direct or behind Scale(1.0)) that are not in lockstep: per-consumer mostly non-decreasing
     requests, mutually out of step, plus some backwards requests"""
     g = dict(rng.choice([{"kind": "no", "dsh": []}, {"kind": "no", "dsh": []}, {"kind": "no", "dsh": [-1]},
@@ -290,14 +323,36 @@ def _gen_multi_case(rng):
     grp = rng.choice([["m", "km", "cm", "mm"], ["s", "min", "h"], ["Hz", "1/s", "1/min"], ["m/s", "km/h", "mm/d"]])
     uo = rng.choice(grp)
     consumers = [{"kind": rng.choice(["direct", "direct", "scale"]), "ui": rng.choice(grp + [None])} for _ in range(rng.choice([2, 2, 3]))]
-    npush = rng.randint(4, 10)
+    mem_limit, wraps = None, None
+    if flavour == "relay":
+        # producer and consumers store the same grid in different layouts (axes order / direction)
+        dims = list(rng.choice(LAYOUT_DIMS))
+        nd = len(dims)
+        both_rev = rng.random() < 0.5
+        g = {"kind": "uni", "dims": dims, "order": rng.choice(["F", "C"]), "rev": both_rev or rng.random() < 0.5,
+             "inc": [rng.random() < 0.6 for _ in range(nd)], "loc": rng.choice(["cells", "cells", "points"])}
+        consumers = consumers[: rng.choice([1, 2, 2])]
+        for c in consumers:
+            c["kind"] = rng.choice(["direct", "direct", "direct", "scale"])
+            inc = list(g["inc"])
+            for a in rng.sample(range(nd), rng.randint(0, nd)):
+                inc[a] = not inc[a]
+            c["lay"] = {"rev": True if both_rev else rng.random() < 0.5, "inc": inc, "order": rng.choice(["F", "C"])}
+        if rng.random() < 0.2:
+            consumers[-1].pop("lay")  # one consumer with the producer's own grid
+    if flavour == "spill" or (flavour is None and rng.random() < 0.25) or (flavour == "relay" and rng.random() < 0.15):
+        mem_limit = rng.choice([0, 0, 8, 64, 200, 400])
+    if flavour == "spill":
+        wraps = MASKED_WRAPS
+        consumers = consumers[: rng.choice([1, 2, 2, 3])]
+    npush = rng.randint(4, 10) if flavour != "relay" else rng.randint(2, 5)
     ts, gaps = _gen_times(rng, npush)
     ops, pubs, k = [], [], 0
     last = [None] * len(consumers)
-    first = rng.randint(2, min(4, npush))
+    first = rng.randint(1 if flavour == "relay" else 2, min(4, npush))
     while len(ops) < 22:
         if k < len(ts) and (k < first or rng.random() < 0.25):
-            ops.append(["push", ts[k], _gen_payload(rng, g, uo, "flex", k, False, False)])
+            ops.append(["push", ts[k], _gen_payload(rng, g, uo, "flex", k, False, False, wraps)])
             pubs.append(ts[k])
             k += 1
             continue
@@ -319,7 +374,10 @@ def _gen_multi_case(rng):
             last[c] = r
         if k >= len(ts) and rng.random() < 0.15:
             break
-    return {"grid": g, "uo": uo, "ui": consumers[0]["ui"], "consumers": consumers, "mask": "flex", "in_mask": "flex", "ops": ops}
+    case = {"grid": g, "uo": uo, "ui": consumers[0]["ui"], "consumers": consumers, "mask": "flex", "in_mask": "flex", "ops": ops}
+    if mem_limit is not None:
+        case["mem_limit"] = mem_limit
+    return case
 
 
 def _p(shape, vals, wrap="array", mask=None, units=None, buf=None):
@@ -374,6 +432,32 @@ CORPUS.append({"grid": _NG0, "uo": "m", "ui": "m", "consumers": [{"kind": "direc
                "ops": [["push", d * _DAY, _p([], [8 * d], "scalar")] for d in range(10)]
                       + [["pull", 8 * _DAY, 0], ["pull", 0, 1], ["pull", 1 * _DAY, 2], ["pull", 3 * _DAY + 1, 1], ["pull", 9 * _DAY, 0],
                          ["pull", 2 * _DAY, 2], ["pull", 1 * _DAY + 5, 2], ["pull", 6 * _DAY, 1], ["pull", 4 * _DAY, 1], ["pull", 9 * _DAY, 2], ["pull", 9 * _DAY, 1]]})
+# compatible but differently laid out grids on the two ends (seeded mutant C08_e): both reversed, directions differ in y only /
+# in x and y; a third consumer not reversed; shaped, flat and time-axis payloads; every cell keeps its value
+_GL = {"kind": "uni", "dims": [3, 4], "order": "F", "rev": True, "inc": [True, False], "loc": "cells"}
+CORPUS.append({"grid": _GL, "uo": "m", "ui": "m", "mask": "flex", "in_mask": "flex",
+               "consumers": [{"kind": "direct", "ui": "m", "lay": {"rev": True, "inc": [True, True], "order": "F"}},
+                             {"kind": "direct", "ui": "cm", "lay": {"rev": True, "inc": [False, True], "order": "C"}},
+                             {"kind": "scale", "ui": "km", "lay": {"rev": False, "inc": [False, False], "order": "F"}}],
+               "ops": [["push", 0, _p([3, 2], [1, 2, 3, 4, 5, 6])], ["pull", 0, 0], ["pull", 0, 1], ["pull", 0, 2],
+                       ["push", 4, _p([6], [11, 12, 13, 14, 15, 16], "qty", units="km")], ["pull", 4, 0], ["pull", 4, 1], ["pull", 4, 2],
+                       ["push", 9, _p([1, 3, 2], [21, 22, 23, 24, 25, 26], "masked", mask=[False, True, False, False, False, True])],
+                       ["pull", 9, 0], ["pull", 9, 1], ["pull", 9, 2]]})
+_GL3 = {"kind": "uni", "dims": [3, 2, 4], "order": "C", "rev": True, "inc": [True, True, False], "loc": "points"}
+CORPUS.append({"grid": _GL3, "uo": "s", "ui": "s", "mask": "flex", "in_mask": "flex",
+               "consumers": [{"kind": "direct", "ui": "s", "lay": {"rev": True, "inc": [False, True, False], "order": "C"}},
+                             {"kind": "direct", "ui": "min", "lay": {"rev": True, "inc": [True, False, True], "order": "F"}}],
+               "ops": [["push", 0, _p([4, 2, 3], list(range(24)))], ["pull", 0, 0], ["pull", 0, 1]]})
+# publications spilled to disk under a memory limit (seeded mutant C08_f): masked payloads with their own, varying masks under
+# Mask.FLEX must come back with values AND mask as published; limit 0 (all spilled) and a limit crossed mid-run
+for _lim in (0, 40):
+    CORPUS.append({"grid": _NG1, "uo": "m", "ui": "cm", "mask": "flex", "in_mask": "flex", "mem_limit": _lim,
+                   "consumers": [{"kind": "direct", "ui": "cm"}, {"kind": "direct", "ui": None}],
+                   "ops": [["push", 0, _p([3], [1, 2, 3], "masked", mask=[True, False, False])],
+                           ["push", 5, _p([3], [9, 10, 11], "qty_masked", mask=[False, True, True], units="km")],
+                           ["push", 14, _p([3], [17, 18, 19], "masked", mask=[False, False, False])],
+                           ["push", 15, _p([3], [25, 26, 27])],
+                           ["pull", 15, 0], ["pull", 0, 1], ["pull", 5, 1], ["pull", 12, 1], ["pull", 15, 1]]})
 # witness of KNOWN finding F21: converting a fully masked 0-d quantity yields numpy's np.ma.masked singleton, so the second
 # such publication "shares memory" with the first although the caller's buffers are distinct (finam refuses it)
 CORPUS.append({"grid": _NG0, "uo": "km/h", "ui": "km/h", "mask": "flex", "in_mask": "flex",
@@ -392,7 +476,7 @@ def generate(rng, tier):
         if i % 5 == 4:
             cases.append(_gen_share_case(rng))
         elif i % 5 == 2:
-            cases.append(_gen_multi_case(rng))
+            cases.append(_gen_multi_case(rng, [None, "relay", "spill", "relay"][(i // 5) % 4]))
         else:
             cases.append(_gen_case(rng, malformed=(i % 5 == 3), exact=(i % 5 == 0)))
     return cases
@@ -448,7 +532,14 @@ def run_impl(case):
     order = getattr(grid, "order", "C")
     mask_out = _mask_arg(case["mask"], gshape)
     out = fm.Output(name="Out")
+    tmpdir = None
+    if case.get("mem_limit") is not None:
+        import tempfile
+        tmpdir = tempfile.mkdtemp(prefix="verif_c08_")
+        out.memory_limit = case["mem_limit"]
+        out.memory_location = tmpdir
     consumers = _consumers(case)
+    cgrids = [grid if not c.get("lay") else make_grid(cons_grid_desc(case, c)) for c in consumers]
     inputs = []
     for i, c in enumerate(consumers):
         inp = fm.Input(name=f"In{i}")
@@ -461,12 +552,13 @@ def run_impl(case):
         inp.ping()
     out.push_info(fm.Info(time=t0, grid=grid, units=case["uo"], mask=mask_out))
     in_mask = fm.Mask.FLEX if case.get("in_mask", "flex") == "flex" else mask_out
-    for inp, c in zip(inputs, consumers):
+    for inp, c, cg in zip(inputs, consumers, cgrids):
         if c["ui"] is None:
-            inp.exchange_info(fm.Info(time=t0, grid=grid, units=None, mask=in_mask))
+            inp.exchange_info(fm.Info(time=t0, grid=cg, units=None, mask=in_mask))
         else:
-            inp.exchange_info(fm.Info(time=t0, grid=grid, mask=in_mask, units=c["ui"]))
+            inp.exchange_info(fm.Info(time=t0, grid=cg, mask=in_mask, units=c["ui"]))
     cons_units = [_unit_name(inp.info.units) for inp in inputs]
+    cons_shapes = [[int(x) for x in cg.data_shape] for cg in cgrids]
     # the key under which the output knows each consumer (the final input, also behind pass-through adapters)
     assert [k for k in out._connected_inputs] == inputs
 
@@ -524,7 +616,7 @@ def run_impl(case):
             try:
                 out.push_data(obj, T(op[1]))
                 res = "ok"
-                if len(out.data) >= 2:
+                if len(out.data) >= 2 and not isinstance(out.data[-1][1], str) and not isinstance(out.data[-2][1], str):
                     really = bool(np.shares_memory(np.ma.getdata(out.data[-1][1].magnitude), np.ma.getdata(out.data[-2][1].magnitude)))
             except Exception as e:  # noqa
                 res = err_class(e)
@@ -542,7 +634,16 @@ def run_impl(case):
             except Exception as e:  # noqa
                 res = err_class(e)
             events.append({"op": "pull", "t": op[1], "k": k, "res": res, "oldest": oldest, "newest": newest})
-    return {"gshape": gshape, "order": order, "cons_units": cons_units, "events": events}
+    spilled = 0
+    if tmpdir is not None:
+        import os
+        import shutil
+        spilled = out._mem_counter  # number of publications written to disk (evidence only)
+        out.finalize()
+        left = os.listdir(tmpdir)
+        shutil.rmtree(tmpdir, ignore_errors=True)
+        assert not left, left
+    return {"gshape": gshape, "order": order, "cons_units": cons_units, "cons_shapes": cons_shapes, "spilled": spilled, "events": events}
 
 
 # ----------------------------------------------------------------------------
@@ -579,7 +680,18 @@ def coq_case(case, obs):
                                                 NONE if p["units"] is None else Some(_coq_unit(p["units"])), buf)))
         else:
             ops.append(C("LPull", N(ev.get("k", 0)), Z(ev["t"])))
-    return P(C("mkC", inf, L(_coq_unit(u) for u in obs["cons_units"])), L(ops))
+    cons = []
+    for c, u in zip(_consumers(case), obs["cons_units"]):
+        if c.get("lay"):
+            g = case["grid"]
+            dims_xyz = obs["gshape"][::-1] if g["rev"] else obs["gshape"]
+            lay = lambda rev, inc: C("mkL", B(rev), L(B(b) for b in inc))  # noqa: E731
+            relay = Some(C("mkR", L(N(x) for x in dims_xyz), lay(g["rev"], g.get("inc") or [True] * len(dims_xyz)),
+                           lay(c["lay"]["rev"], c["lay"]["inc"])))
+        else:
+            relay = NONE
+        cons.append(C("mkCo", _coq_unit(u), relay))
+    return P(C("mkC", inf, L(cons)), L(ops))
 
 
 def coq_obs(case, obs):
@@ -653,9 +765,28 @@ def _close(x, y):
     return abs(x - y) <= TOL * max(1, abs(x))
 
 
-def _check_delivery(case, obs, pub, r, cons):
+def _relay_of(case, obs, ck):
+    """consumer C position -> producer C position of the same physical cell (None: same layout)"""
+    c = _consumers(case)[ck]
+    if not c.get("lay"):
+        return None, None
+    g = case["grid"]
+    dims_xyz = obs["gshape"][::-1] if g["rev"] else obs["gshape"]
+    src = layout_positions(dims_xyz, g["rev"], g.get("inc") or [True] * len(dims_xyz))
+    dst = layout_positions(dims_xyz, c["lay"]["rev"], c["lay"]["inc"])
+    where = {cid: q for q, cid in enumerate(src)}
+    return [where[cid] for cid in dst], obs["cons_shapes"][ck]
+
+
+def _check_delivery(case, obs, pub, r, cons, ck=0):
     """r: delivered array description; pub: accepted payload description.  Returns failure text or None."""
     k, perm, cell = pub["form"]
+    relay, cshape = _relay_of(case, obs, ck)
+    if relay is not None:
+        n0 = _prod(cell)
+        # consumer cell -> producer cell -> position in the payload
+        perm = [(relay[j % n0] if perm is None else perm[relay[j % n0]]) + (j // n0) * n0 for j in range(k * n0)]
+        cell = list(cshape)
     if r["shape"] != [k] + cell:
         return f"delivered shape {r['shape']}, expected {[k] + cell}"
     if r["units"] != cons:
@@ -665,7 +796,7 @@ def _check_delivery(case, obs, pub, r, cons):
     n = _prod(cell)
     bits = case["mask"] if isinstance(case["mask"], list) else None
     for j in range(k * n):
-        src = j if perm is None else perm[j]
+        src = j if perm is None else (perm[j] if len(perm) == k * n else perm[j % n] + (j // n) * n)
         if p["mask"] is not None:
             want_m = p["mask"][src]
         elif bits is not None:
@@ -726,7 +857,7 @@ def _sim(case, obs):
             continue
         dmin = min(abs(q["t"] - t) for q in pubs)
         cands = [q for q in pubs if abs(q["t"] - t) == dmin and q["form"] is not None]
-        errs = [_check_delivery(case, obs, q, r, cons) for q in cands]
+        errs = [_check_delivery(case, obs, q, r, cons, ev.get("k", 0)) for q in cands]
         if not cands or all(errs):
             fails.append(f"pull t={t}: result is not the publication nearest in time ({[q['t'] for q in cands]}): " + (errs[0] if errs else "?"))
             continue
